@@ -82,6 +82,8 @@ pub const ELEM_CLASSES: &[NameClass] = &[
         names: &[
             "type", "Type", "TYPE", "self", "Self", "crate", "loop", "Loop", "try", "async", "dyn", "match", "fn",
             "struct", "super", "true", "mod", "use", "where", "yield", "abstract", "box", "ns:type", "x:self",
+            // keywords behind / in front of separators (a clean-up of leading or trailing underscores must not expose them)
+            "_type", "_self", "__ref", "type_", "_loop_", "_Type",
         ],
     },
     NameClass { tag: "case", names: &["Foo", "foo", "FOO", "fOO", "Bar", "bar", "BAR"] },
@@ -129,7 +131,7 @@ pub const ATTR_CLASSES: &[NameClass] = &[
     NameClass { tag: "xmlns", names: &["xmlns", "xmlns:ns", "xmlns:x", "xmlns:xsi", "xmlns:p"] },
     NameClass {
         tag: "keyword",
-        names: &["type", "Type", "self", "Self", "crate", "loop", "try", "async", "ref", "in", "for", "match", "move", "x:type"],
+        names: &["type", "Type", "self", "Self", "crate", "loop", "try", "async", "ref", "in", "for", "match", "move", "x:type", "_type", "_ref", "__self", "type_"],
     },
     NameClass { tag: "case", names: &["Foo", "foo", "FOO", "Bar", "bar"] },
     NameClass { tag: "separator", names: &["a-b", "a.b", "a_b", "AB", "a__b", "_a", "a_", "aB", "data-id", "data.id"] },
